@@ -23,6 +23,9 @@ GS = [
     {'start': [('opt', 'A'), ('B', 'opt')], 'opt': [(), ('C',)]},
     {'start': [('start', 'A'), ('B',), ('start', 'C', 'B')]},
     {'start': [('x', 'x')], 'x': [('A',), ('A', 'x'), ('B', 'C')]},
+    # a nullable nonterminal, then a terminal, then a nonterminal: what follows the terminal must not be predicted before it is seen
+    {'start': [('mods', 'A', 'body')], 'mods': [(), ('B',)], 'body': [('C', 'C'), ('C', 'body2')], 'body2': [('B', 'A')]},
+    {'start': [('n', 'n', 'B', 'tail'), ('C',)], 'n': [(), ('A',)], 'tail': [('C',), ('A', 'tail')]},
 ]
 ALPHA = 'abc'
 
